@@ -87,6 +87,7 @@ func Spec() *run.Spec {
 			{Name: "spz-decode", Cases: func(t string) int { return n3(t, 5000, 150000) }, Run: spzDecode, Batch: 250, CPUBudgetS: 20},
 			{Name: "splatply-export", Cases: func(t string) int { return n3(t, 3000, 40000) }, Run: splatPly, Batch: 100, CPUBudgetS: 20},
 			{Name: "large", Cases: func(t string) int { return n3(t, 9, 100) }, Run: largeClouds, Batch: 1, CPUBudgetS: 120},
+			{Name: "block-multiples", Cases: func(t string) int { return n3(t, len(splatBlockBases), 4*len(splatBlockBases)) }, Run: blockMultipleClouds, Batch: 4, CPUBudgetS: 120},
 			{Name: "fault-sequences", Cases: func(t string) int { return n3(t, 2000, 50000) }, Run: faultSequences, Batch: 250, CPUBudgetS: 20},
 		},
 	}
